@@ -611,15 +611,11 @@ def w4(e: Engine, rep: Report):
                     path_of(t, n.frame) == 'self.recv_buffer'
                     for t in n.ast.targets):
                 v = n.ast.value
-                if isinstance(v, ast.Subscript) and \
-                        isinstance(v.slice, ast.Slice) and \
-                        isinstance(v.slice.lower, ast.Call) and \
-                        isinstance(v.slice.lower.func, ast.Attribute) and \
-                        v.slice.lower.func.attr == 'end' and \
-                        isinstance(v.slice.lower.func.value, ast.Name):
+                mnode = c09.consumed_match(g, n)
+                if mnode is not None:
                     # (the match may have been handed to a helper that
                     # does the consuming)
-                    mx, mfr = common.origin(g, v.slice.lower.func.value,
+                    mx, mfr = common.origin(g, mnode,
                                             n.frame, follow_locals=False)
                     mv = mx.id if isinstance(mx, ast.Name) else None
                     defs = [s2 for s2 in g.of_kind('stmt')
